@@ -86,6 +86,14 @@ def correspondence(ctx):
             s.meta["i"] = i
             s.meta["k"] = k
             scns.append(s)
+            if s.meta.get("huge") or (k == 1 and i % 5 == 0):
+                # the same layout as a node with -blocksxor writes it, key lengths that do not divide 2^32 among them (offsets beyond
+                # 4 GiB then sit at a key phase that a 32-bit position would get wrong)
+                x = K.Scenario(coin=coin, callback="csvdump")
+                x.kvs, x.files, x.extra_files, x.block_at = s.kvs, s.files, s.extra_files, s.block_at
+                x.xorkey = GC.rb(r, r.choice([3, 6, 7, 12, 31, 8]))
+                x.meta = dict(s.meta, xor=len(x.xorkey))
+                scns.append(x)
         impl, model = bb.check(ctx, "layouts", scns, CMP, nontrivial=lambda s, m: bool(s.meta))
         # layouts of one chain against each other (needs no model)
         base = impl[0].final_files()
